@@ -630,6 +630,10 @@ pub fn run_proc_case(c: &ProcCase) -> String {
                 // proportional to a size argument inside a native). Reported, never a death.
                 return "SLOW cpu-limit-8s-in-one-step".to_string();
             }
+            if matches!(o.status.code(), Some(126) | Some(127)) {
+                // the shell could not exec the harness binary (it was being rebuilt): not an observation
+                return format!("HARNESS cannot exec worker binary (exit {:?})", o.status.code());
+            }
             let why = stderr.lines().find(|l| l.contains("overflow") || l.contains("allocation") || l.contains("panicked")).unwrap_or("").chars().take(100).collect::<String>();
             format!("DIED code={:?} signal={:?} {}", o.status.code(), o.status.signal(), why)
         }
@@ -706,6 +710,12 @@ pub fn process_stratum(
         } else if known.contains(&key) {
             no_longer.push(key);
         }
+    }
+    if let Some(n) = tally.get("HARNESS").copied().filter(|n| *n > 0) {
+        // worker processes could not be started (binary replaced while the check ran, no fork, ...):
+        // nothing was observed for those cases, so nothing may be claimed
+        eprintln!("HARNESS-ERROR: {} worker processes of the C06 resource stratum could not be started", n);
+        std::process::exit(2);
     }
     for f in open {
         if f.cases.is_empty() {
